@@ -440,6 +440,24 @@ def allclose(a, b, rtol=1e-5, atol=1e-8):
     return True
 
 
+def all_(a, axis=None):
+    if axis is not None:
+        raise Unsupported("np.all with axis")
+    for d in asarr(a).data:
+        if not bool(d if isinstance(d, (bool, SBool)) else (_fl(d) != 0)):
+            return False
+    return True
+
+
+def any_(a, axis=None):
+    if axis is not None:
+        raise Unsupported("np.any with axis")
+    for d in asarr(a).data:
+        if bool(d if isinstance(d, (bool, SBool)) else (_fl(d) != 0)):
+            return True
+    return False
+
+
 def issubdtype(a, b):
     an = dtype_name(a)
     if b is SReal or b is float or dtype_name(b) == "float":      # np.floating / float
@@ -709,6 +727,10 @@ def build():
                  "allclose", "isclose", "copyto", "argsort", "nonzero", "flatnonzero", "seterr", "geterr", "nanmin", "nanmax", "prod", "dot", "einsum", "errstate"):
         setattr(np, name, g[name])
     np.abs = absolute
+    if not hasattr(np, "all"):
+        np.all = all_
+    if not hasattr(np, "any"):
+        np.any = any_
     np.max = amax_
     np.amax = amax_
     np.min = amin_
